@@ -302,7 +302,7 @@ Definition apply_fn_spec (f : fn) (args : list value) : outcome fresult :=
   | FRange, [VInt i; VInt limit] => Ok (RList (range_values i limit 1))
   | FRange, [VInt i; VInt limit; VInt step] =>
       if (step <=? 0)%Z then no_value else Ok (RList (range_values i limit step))
-  | FHasData, [] => Ok (RValue (VBool true))
+  | FHasData, _ => Ok (RValue (VBool true))                                   (* the arity is checked by the caller *)
   | _, _ => no_value
   end.
 
